@@ -28,7 +28,7 @@ class IntRangeExpr(Sized):
         for range in sorted_ranges[1:]:
             if (
                 self._ranges[-1].step == range.step
-                and self._ranges[-1].end + range.step == range.start
+                and self._ranges[-1][-1] + range.step == range.start
             ):
                 self._ranges[-1] = IntRange(self._ranges[-1].start, range.end, range.step)
             else:
